@@ -93,6 +93,60 @@ def parseInts (s : String) : Option (List Int) :=
 '''
 
 
+# heap mode (object store): dynamically typed values, the store, and the `on_miss` callables (chosen from a fixed
+# menu by index; a callable is not encoded back)
+HEAP_CODEC = r'''
+def decVal : List Int → Option (PyHeap.Val (List Char) Int × List Int)
+  | 0 :: r => some (.none, r)
+  | 1 :: r => some (.sentinel, r)
+  | 2 :: a :: r => some (.ref a.toNat, r)
+  | 3 :: r => (match (Codec.dec r : Option (List Char × List Int)) with
+    | some (k, r') => some (.key k, r')
+    | none => none)
+  | 4 :: v :: r => some (.val v, r)
+  | 5 :: i :: r => some (.int i, r)
+  | _ => none
+def encVal : PyHeap.Val (List Char) Int → List Int
+  | .none => [0]
+  | .sentinel => [1]
+  | .ref a => [2, (a : Int)]
+  | .key k => 3 :: Codec.enc k
+  | .val v => [4, v]
+  | .int i => [5, i]
+instance : Codec (PyHeap.Val (List Char) Int) := ⟨decVal, encVal⟩
+instance : Codec (PyHeap.Heap (List Char) Int) :=
+  ⟨fun t => match (Codec.dec t : Option (List (List (PyHeap.Val (List Char) Int)) × List Int)) with
+    | some (c, r) => some (⟨c⟩, r)
+    | none => none,
+   fun h => Codec.enc h.cells⟩
+def omMenu : Int → Option (List Char → Except PyExc Int)
+  | 0 => none
+  | 1 => some (fun k => .ok ((k.length : Int) + 100))
+  | 2 => some (fun _ => .error PyExc.KeyError)
+  | 3 => some (fun _ => .error PyExc.ValueError)
+  | _ => some (fun k => if k.length % 2 = 0 then .ok 7 else .error PyExc.KeyError)
+instance : Codec (Option (List Char → Except PyExc Int)) :=
+  ⟨fun | x :: r => some (omMenu x, r) | [] => none, fun _ => []⟩
+'''
+
+
+def _om_keyerror(k):
+    raise KeyError(k)
+
+
+def _om_valueerror(k):
+    raise ValueError(k)
+
+
+def _om_mixed(k):
+    if len(k) % 2 == 0:
+        return 7
+    raise KeyError(k)
+
+
+OM_MENU = [None, lambda k: len(k) + 100, _om_keyerror, _om_valueerror, _om_mixed]
+
+
 # ------------------------------------------------------------------ int-stream codec, Python side
 VAR_INST = {'κ': ('Str',)}     # dict keys are instantiated with strings (keyword names must be strings)
 
@@ -137,14 +191,85 @@ def enc(t, v, out):
             raise ValueError('tuple length')
         for tt, x in zip(t[1], v):
             enc(tt, x, out)
+    elif k == 'Option' and t[1] is not None and t[1][0] == 'Fun':
+        out.append(int(v))                  # a callable: its index in OM_MENU
     elif k == 'Option':
         if v is None:
             out.append(0)
         else:
             out.append(1)
             enc(t[1], v, out)
+    elif k == 'Val':                        # heap mode: ('none',) ('sent',) ('ref', i) ('key', s) ('val', n) ('int', n)
+        tag = {'none': 0, 'sent': 1, 'ref': 2, 'key': 3, 'val': 4, 'int': 5}[v[0]]
+        out.append(tag)
+        if tag == 3:
+            enc(('Str',), v[1], out)
+        elif tag in (2, 4, 5):
+            out.append(int(v[1]))
+    elif k == 'Heap':
+        out.append(len(v))
+        for cell in v:
+            out.append(len(cell))
+            for x in cell:
+                enc(('Val',), x, out)
     else:
         raise ValueError(t)
+
+
+def dec(t, toks, pos):
+    """inverse of `enc` on the types heap-mode methods return / keep in their state -> (value, new position)"""
+    k = t[0]
+    if k == 'Var' and t[1] in VAR_INST:
+        return dec(VAR_INST[t[1]], toks, pos)
+    if k in ('Int', 'Var'):
+        return toks[pos], pos + 1
+    if k == 'Bool':
+        return toks[pos] != 0, pos + 1
+    if k == 'Unit':
+        return None, pos
+    if k == 'Str':
+        n = toks[pos]
+        return ''.join(chr(c) for c in toks[pos + 1:pos + 1 + n]), pos + 1 + n
+    if k == 'List':
+        n, pos = toks[pos], pos + 1
+        out = []
+        for _ in range(n):
+            x, pos = dec(t[1], toks, pos)
+            out.append(x)
+        return out, pos
+    if k == 'Dict':
+        n, pos = toks[pos], pos + 1
+        out = {}
+        for _ in range(n):
+            kk, pos = dec(t[1], toks, pos)
+            x, pos = dec(t[2], toks, pos)
+            out[kk] = x
+        return out, pos
+    if k == 'Prod':
+        out = []
+        for tt in t[1]:
+            x, pos = dec(tt, toks, pos)
+            out.append(x)
+        return tuple(out), pos
+    if k == 'Option' and t[1] is not None and t[1][0] == 'Fun':
+        return None, pos                    # callables are not encoded back
+    if k == 'Option':
+        if toks[pos] == 0:
+            return None, pos + 1
+        return dec(t[1], toks, pos + 1)
+    if k == 'Val':
+        tag = toks[pos]
+        if tag == 0:
+            return ('none',), pos + 1
+        if tag == 1:
+            return ('sent',), pos + 1
+        if tag == 3:
+            x, p2 = dec(('Str',), toks, pos + 1)
+            return ('key', x), p2
+        return ({2: 'ref', 4: 'val', 5: 'int'}[tag], toks[pos + 1]), pos + 2
+    if k == 'Heap':
+        return dec(('List', ('List', ('Val',))), toks, pos)
+    raise ValueError(t)
 
 
 def canon(t, v):
@@ -175,6 +300,12 @@ def lean_type(t):
         return '(%s %s)' % (k, lean_type(t[1]))
     if k == 'Prod':
         return '(' + ' × '.join(lean_type(x) for x in t[1]) + ')'
+    if k == 'Val':
+        return '(PyHeap.Val (List Char) Int)'
+    if k == 'Heap':
+        return '(PyHeap.Heap (List Char) Int)'
+    if k == 'Fun':
+        return '(%s → Except PyExc %s)' % (lean_type(t[1]), lean_type(t[2]))
     raise ValueError(t)
 
 
@@ -211,6 +342,182 @@ def to_py(t, v, in_dict=False):
 
 
 EXC_CODES = {n: i for i, n in enumerate(py2lean.EXC_NAMES)}
+
+
+# ------------------------------------------------------------------ heap mode: object graphs
+# A state of a heap-mode class is a SNAPSHOT: {attribute: value} in the vocabulary of `enc` (cells are numbered,
+# a slot is ('none',) | ('sent',) | ('ref', i) | ('key', str) | ('val', int) | ('int', int)); `heap` is the list of
+# cells.  `heap_build` makes a fresh Python object with an isomorphic object graph, `heap_snapshot` reads one back
+# (cells numbered in the order of discovery from the roots), `heap_canon` renumbers the cells reachable from the
+# roots, so that two graphs are compared UP TO ISOMORPHISM OF ADDRESSES (garbage is ignored).
+def _heap_slot(x, ids, sentinel, todo):
+    if x is None:
+        return ('none',)
+    if x is sentinel:
+        return ('sent',)
+    if isinstance(x, list):
+        if id(x) not in ids:
+            ids[id(x)] = len(ids)
+            todo.append(x)
+        return ('ref', ids[id(x)])
+    if isinstance(x, str):
+        return ('key', x)
+    if isinstance(x, bool) or not isinstance(x, int):
+        raise ValueError('unencodable object in the store: %r' % (x,))
+    return ('val', x)
+
+
+def heap_snapshot(cls, obj, sentinel, extra=()):
+    """-> (snapshot, slots of the `extra` objects); roots: `extra`, then the Val-typed attributes in spec order"""
+    ids, todo, cells = {}, [], []
+    snap = {}
+    extra_slots = [_heap_slot(x, ids, sentinel, todo) for x in extra]
+    for a, tt in cls['state'].items():
+        t = py2lean.parse_type(tt)
+        if a == cls['heap'].get('field', 'heap'):
+            continue
+        if a == cls.get('dict_base'):
+            snap[a] = dict(dict.items(obj))
+        elif t == ('Val',):
+            snap[a] = _heap_slot(getattr(obj, a), ids, sentinel, todo)
+        elif t[0] == 'Dict' and t[2] == ('Val',):
+            snap[a] = {k: _heap_slot(v, ids, sentinel, todo) for k, v in getattr(obj, a).items()}
+        elif t[0] == 'Option' and t[1] is not None and t[1][0] == 'Fun':
+            snap[a] = OM_MENU.index(getattr(obj, a))
+        else:
+            snap[a] = getattr(obj, a)
+    done = 0
+    while done < len(todo):
+        cells.append([_heap_slot(x, ids, sentinel, todo) for x in todo[done]])
+        done += 1
+    snap[cls['heap'].get('field', 'heap')] = cells
+    return snap, extra_slots
+
+
+def heap_build(cls, pycls, snap, sentinel):
+    import threading
+    hf = cls['heap'].get('field', 'heap')
+    objs = [[] for _ in snap[hf]]
+
+    def val(x):
+        if x[0] == 'none':
+            return None
+        if x[0] == 'sent':
+            return sentinel
+        if x[0] == 'ref':
+            return objs[x[1]]
+        return x[1]
+    for o, cell in zip(objs, snap[hf]):
+        o[:] = [val(x) for x in cell]
+    obj = pycls.__new__(pycls)
+    for a, tt in cls['state'].items():
+        t = py2lean.parse_type(tt)
+        if a == hf:
+            continue
+        if a == cls.get('dict_base'):
+            dict.update(obj, snap[a])
+        elif t == ('Val',):
+            setattr(obj, a, val(snap[a]))
+        elif t[0] == 'Dict' and t[2] == ('Val',):
+            setattr(obj, a, {k: val(v) for k, v in snap[a].items()})
+        elif t[0] == 'Option' and t[1] is not None and t[1][0] == 'Fun':
+            setattr(obj, a, OM_MENU[snap[a]])
+        else:
+            setattr(obj, a, snap[a])
+    for a in cls.get('ignore_with', ()):
+        setattr(obj, a, threading.RLock())
+    return obj
+
+
+def heap_canon(cls, snap, result):
+    """(result, state) with the cells reachable from the roots renumbered in order of discovery"""
+    hf = cls['heap'].get('field', 'heap')
+    cells = snap[hf]
+    ids, order = {}, []
+
+    def slot(x):
+        if x[0] != 'ref':
+            return x
+        if x[1] not in ids:
+            ids[x[1]] = len(ids)
+            order.append(x[1])
+        return ('ref', ids[x[1]])
+
+    def walk(v):
+        if isinstance(v, tuple) and v and isinstance(v[0], str) and v[0] in ('none', 'sent', 'ref', 'key', 'val', 'int'):
+            return slot(v)
+        if isinstance(v, dict):
+            return [(k, walk(x)) for k, x in v.items()]
+        if isinstance(v, (list, tuple)):
+            return [walk(x) for x in v]
+        return v
+    out = [walk(result)]
+    for a in cls['state']:
+        if a != hf:
+            out.append((a, walk(snap[a])))
+    done = 0
+    graph = []
+    while done < len(order):
+        c = cells[order[done]] if order[done] < len(cells) else []
+        graph.append([slot(x) for x in c])
+        done += 1
+    out.append(graph)
+    return out
+
+
+def call_heap_method(spec, fn, case):
+    """a method of a heap-mode class on a fresh object isomorphic to the snapshot `case['self']`
+    -> canonical (result | exception, state after)"""
+    cls = spec['cls']
+    pycls = fn.__globals__[cls['name']]
+    sentinel = fn.__globals__[cls['sentinels'][0]] if cls.get('sentinels') else object()
+    obj = heap_build(cls, pycls, case['self'], sentinel)
+    pos = []
+    for p, tt in spec['params'].items():
+        v = to_py(py2lean.parse_type(tt), case[py2lean.mangle(p)])
+        if v is None and cls.get('sentinels') and py2lean.parse_type(tt)[0] == 'Option':
+            break           # `none` of a parameter whose Python default is an "omitted" marker: omit the argument
+        pos.append(v)
+    kw = {}
+    for kn, kt in spec.get('kwargs', {}).items():
+        kw.update(to_py(py2lean.parse_type(kt), case[kn]))
+    try:
+        with common.time_limit(5):
+            r = fn(obj, *pos, **kw)
+        res = ('ok', r)
+    except common.CaseTimeout:
+        res = ('exc', 'CaseTimeout')
+    except Exception as e:  # noqa: BLE001
+        res = ('exc', type(e).__name__)
+    rt = py2lean.parse_type(spec['result'])
+    if res[0] == 'ok' and rt == ('Val',):
+        snap, (rs,) = heap_snapshot(cls, obj, sentinel, [res[1]])
+        return heap_canon(cls, snap, ('ok', rs))
+    snap, _ = heap_snapshot(cls, obj, sentinel)
+    if res[0] == 'ok':
+        return heap_canon(cls, snap, ('ok', list(res[1]) if isinstance(res[1], tuple) else res[1]))
+    return heap_canon(cls, snap, ('exc', EXC_CODES.get(res[1], 7)))
+
+
+def heap_lean_result(spec, rtype, val):
+    """decode the Lean output stream of a heap-mode method -> canonical (result | exception, state after)"""
+    cls = spec['cls']
+    pos = 0
+    if val[0] == 0:
+        result, pos = ('exc', val[1]), 2
+    else:
+        r, pos = dec(rtype, val, 1)
+        result = ('ok', list(r) if rtype[0] == 'Prod' else r)
+    snap = {}
+    for a, tt in cls['state'].items():
+        snap[a], pos = dec(py2lean.parse_type(tt), val, pos)
+    if pos != len(val):
+        raise ValueError('trailing tokens in the Lean output')
+    for a, tt in cls['state'].items():
+        t = py2lean.parse_type(tt)
+        if t[0] == 'Option' and t[1] is not None and t[1][0] == 'Fun':
+            snap[a] = None
+    return heap_canon(cls, snap, result)
 
 
 def call_method(spec, fn, case):
@@ -524,7 +831,113 @@ def fam_m2m(method):
     return fam
 
 
+LRI_KEYS = ['a', 'b', 'c', 'd', 'ee', '']
+
+
+def _lri_states(rng, quick, lru):
+    """snapshots of LRI / LRU objects: reachable ones (prefixes of random histories on the real class, built by
+    its own __init__) and CORRUPTED ones (dict and ring out of step, a `_MISSING` / None in a link slot, a key missing
+    from `_link_lookup`, max_size 0): the error paths, and the object state after an exception"""
+    import importlib
+    mod = importlib.import_module('boltons.cacheutils')
+    pycls = mod.LRU if lru else mod.LRI
+    cls = srctie_specs.LRU if lru else srctie_specs.LRI
+
+    def snap(o):
+        return heap_snapshot(cls, o, mod._MISSING)[0]
+    for _ in range(10 if quick else 100):
+        o = pycls(max_size=rng.choice([1, 2, 2, 3, 4]), on_miss=OM_MENU[rng.choice([0, 0, 0, 1, 2, 3, 4])])
+        yield snap(o)
+        for _ in range(rng.randint(1, 14)):
+            k = rng.choice(LRI_KEYS)
+            r = rng.random()
+            try:
+                if r < 0.45:
+                    o[k] = rng.randint(0, 9)
+                elif r < 0.6:
+                    o[k]
+                elif r < 0.68:
+                    o.get(k, -1)
+                elif r < 0.76:
+                    o.pop(k, None)
+                elif r < 0.82:
+                    del o[k]
+                elif r < 0.88:
+                    o.setdefault(k, rng.randint(0, 9))
+                elif r < 0.93:
+                    o.popitem()
+                elif r < 0.97:
+                    o.update([(rng.choice(LRI_KEYS), 5)], **{rng.choice(LRI_KEYS[:5]): 6})
+                else:
+                    o.clear()
+            except (KeyError, ValueError):
+                pass
+            yield snap(o)
+            if rng.random() < 0.25:
+                # a corrupted copy of this state
+                c = heap_build(cls, pycls, snap(o), mod._MISSING)
+                how = rng.randint(0, 6)
+                links = list(c._link_lookup.values())
+                if how == 0 and len(c):
+                    dict.__delitem__(c, rng.choice(list(c)))
+                elif how == 1:
+                    dict.__setitem__(c, 'zz', 5)
+                elif how == 2 and links:
+                    rng.choice(links)[rng.choice([2, 3])] = mod._MISSING
+                elif how == 3 and c._link_lookup:
+                    del c._link_lookup[rng.choice(list(c._link_lookup))]
+                elif how == 4:
+                    c.max_size = rng.choice([0, 1, len(c)])
+                elif how == 5 and links:
+                    rng.choice(links)[rng.choice([0, 1])] = rng.choice([None, mod._MISSING, 7])
+                elif how == 6:
+                    c._anchor[rng.choice([0, 1])] = None
+                yield snap(c)
+
+
+def fam_lri(method, lru=False):
+    def fam(rng, quick):
+        for st in _lri_states(rng, quick, lru):
+            for _ in range(2):
+                case = {'self': st}
+                key = rng.choice(list(st['d']) or LRI_KEYS) if rng.random() < 0.6 else rng.choice(LRI_KEYS)
+                if method in ('move_to_front', 'remove_from_ll', 'getitem', 'delitem'):
+                    case['key'] = key
+                elif method in ('add_to_front', 'evict_last', 'setitem'):
+                    case.update(key=key, value=rng.randint(0, 9))
+                elif method in ('get', 'setdefault'):
+                    case.update(key=key, default_=rng.randint(-3, 9))
+                elif method == 'pop':
+                    case.update(key=key, default_=rng.choice([None, None, -1, 5]))
+                elif method == 'update_pairs':
+                    case['E'] = [(rng.choice(LRI_KEYS), rng.randint(0, 9)) for _ in range(rng.randint(0, 4))]
+                    case['F'] = {rng.choice(LRI_KEYS[:5]): rng.randint(0, 9) for _ in range(rng.randint(0, 2))}
+                elif method == 'update_dict':
+                    case['E'] = {rng.choice(LRI_KEYS): rng.randint(0, 9) for _ in range(rng.randint(0, 4))}
+                    case['F'] = {rng.choice(LRI_KEYS[:5]): rng.randint(0, 9) for _ in range(rng.randint(0, 2))}
+                yield case
+    return fam
+
+
 FAMILIES = {
+    'LRI.init_ll': fam_lri('init_ll'),
+    'LRI.move_to_front': fam_lri('move_to_front'),
+    'LRI.add_to_front': fam_lri('add_to_front'),
+    'LRI.evict_last': fam_lri('evict_last'),
+    'LRI.remove_from_ll': fam_lri('remove_from_ll'),
+    'LRI.setitem': fam_lri('setitem'),
+    'LRI.getitem': fam_lri('getitem'),
+    'LRI.get': fam_lri('get'),
+    'LRI.delitem': fam_lri('delitem'),
+    'LRI.pop': fam_lri('pop'),
+    'LRI.popitem': fam_lri('popitem'),
+    'LRI.clear': fam_lri('clear'),
+    'LRI.setdefault': fam_lri('setdefault'),
+    'LRI.update_pairs': fam_lri('update_pairs'),
+    'LRI.update_dict': fam_lri('update_dict'),
+    'LRU.getitem': fam_lri('getitem', True),
+    'LRU.get': fam_lri('get', True),
+    'LRU.setdefault': fam_lri('setdefault', True),
     'ManyToMany.add': fam_m2m('add'),
     'ManyToMany.remove': fam_m2m('remove'),
     'ManyToMany.getitem': fam_m2m('getitem'),
@@ -1021,14 +1434,15 @@ def build_driver(pids, repo, snippets=False):
             mods.setdefault(spec['module'], [])
             if spec not in mods[spec['module']]:
                 mods[spec['module']].append(spec)
-    body = ['import BoltonsVerif.PyRt', 'set_option linter.all false', '']
+    heap = any((sp.get('cls') or {}).get('heap') for ss in mods.values() for sp in ss)
+    body = ['import BoltonsVerif.PyHeap' if heap else 'import BoltonsVerif.PyRt', 'set_option linter.all false', '']
     fns = []
     for module_name in sorted(mods):
         text, infos = py2lean.translate_module(module_name, mods[module_name], repo)
         for i in infos:
             if i.get('error'):
                 raise common.InfraError('not translated: %s: %s' % (i['function'], i['error']))
-        body.append(text.replace('import BoltonsVerif.PyRt\n', ''))
+        body.append(text.replace('import BoltonsVerif.PyRt\n', '').replace('import BoltonsVerif.PyHeap\n', ''))
         mod = sys.modules[module_name]
         for spec in mods[module_name]:
             obj = mod
@@ -1040,6 +1454,8 @@ def build_driver(pids, repo, snippets=False):
         body.append(text.replace('import BoltonsVerif.PyRt\n', ''))
         fns.extend(sfns)
     body.append(CODEC)
+    if heap:
+        body.append(HEAP_CODEC)
     arms = []
     FUEL = 40
     for n, (spec, short, _) in enumerate(fns):
@@ -1152,7 +1568,7 @@ def run(pids, quick=False, seed=0, verbose=True, snippets=False):
         with open(drv, 'w') as fh:
             fh.write(src)
         with common.BuildLock():
-            rc, out = common._run(['lake', 'build', 'BoltonsVerif.PyRt'])
+            rc, out = common._run(['lake', 'build', 'BoltonsVerif.PyRt', 'BoltonsVerif.PyHeap'])
         if rc != 0:
             raise common.InfraError('cannot build BoltonsVerif.PyRt: ' + out[-500:])
         t1 = time.time()
@@ -1176,6 +1592,22 @@ def run(pids, quick=False, seed=0, verbose=True, snippets=False):
         toks = [int(x) for x in got.split()]
         pre, val = toks[0], toks[1:]
         bad = None
+        if spec.get('cls') is not None and spec['cls'].get('heap'):
+            # heap mode: result / exception class and the whole object graph after the call, up to renaming of addresses
+            want = call_heap_method(spec, fn, case)
+            hf = spec['cls']['heap'].get('field', 'heap')
+            for a, tt in spec['cls']['state'].items():      # callables are not encoded back
+                t = py2lean.parse_type(tt)
+                if t[0] == 'Option' and t[1] is not None and t[1][0] == 'Fun':
+                    want = [w if not (isinstance(w, tuple) and w and w[0] == a) else (a, None) for w in want]
+            got_c = heap_lean_result(spec, rtype, val)
+            r['compared'] += 1
+            if want[0][0] == 'exc':
+                r['python_raises'] += 1
+            if want != got_c:
+                r['mismatches'] += 1
+                mismatches.append((spec['lean_name'], case, 'Python %r but Lean %r' % (want, got_c)))
+            continue
         if spec.get('cls') is not None:
             # raising mode: the exception class (or the value) AND the state after the call must agree
             (kind, res), after = call_method(spec, fn, case)
@@ -1420,6 +1852,51 @@ REJECT2 = [
 ]
 
 
+# the boundary of heap mode (round 3b): a class with an object store; each method must be refused
+_HBOX = {'name': 'H', 'lean_name': 'H', 'tparams': ['κ', 'ν'], 'deceq': ['κ'], 'inhabited': ['ν'],
+         'heap': {'field': 'heap', 'key': 'κ', 'val': 'ν'}, 'virtual': ['heap', 'd'], 'dict_base': 'd',
+         'sentinels': ['_MISSING'], 'ignore_with': ['_lock'],
+         'state': {'heap': 'Heap', 'd': 'Dict κ ν', 'n': 'Int', '_tab': 'Dict κ Val', '_anchor': 'Val'}, 'methods': []}
+_HP = {'params': {'k': 'κ', 'v': 'ν'}, 'result': 'None', 'raises': True, 'cls': _HBOX, 'method': True}
+REJECT3 = [
+    ('an allocation inside an expression', 'self._anchor[0] = [k, v]'),
+    ('a nested list display', 'x = [k, [v]]\n        self._anchor = x'),
+    ('two store writes in one statement', 'a = self._anchor\n        a[0], a[1] = a, a'),
+    ('storing under a dynamically typed key', 'self._tab[self._anchor[2]] = self._anchor'),
+    ('a dynamically typed value where a value of the item type is expected',
+     'dict.__setitem__(self, k, self._anchor[3])'),
+    ('a lock the spec does not declare transparent', 'with self._other:\n            self.n = 1'),
+    ('a slice of a cell', 'x = self._anchor[1:]\n        self._anchor = x'),
+    ('truth value of a dynamically typed value', 'if self._anchor[2]:\n            self.n = 1'),
+    ('bare raise outside a handler', 'raise'),
+    ('a list display stored in the dict', 'self._tab[k] = [k, v]'),
+    ('arithmetic on a dynamically typed value', 'self.n = self._anchor[0] + 1'),
+    ('a starred display', 'x = [*self._tab]\n        self._anchor = x'),
+    ('chained assignment whose value is evaluated twice', 'self._anchor[0] = self._anchor[1] = self._tab.pop(k)'),
+]
+
+
+def reject_tests3(verbose=True):
+    import ast
+    bad = []
+    for name, body in REJECT3:
+        src = 'class H(dict):\n    def m(self, k, v):\n        %s\n' % body
+        spec = {'module': 'x', 'qualname': 'H.m', 'lean_name': 'H.m', 'kind': 'function', 'tie_theorem': '-', 'py': 'm'}
+        spec.update(_HP)
+        tree = ast.parse(src)
+        try:
+            fdef = py2lean._find_function(tree, 'H.m')
+            text = py2lean.FnTranslator(fdef, spec, {}, tree).emit()
+            bad.append((name, text))
+        except (py2lean.Unsupported, py2lean._Unknown):
+            pass
+    if verbose:
+        print('subset boundary (heap mode): %d/%d snippets refused' % (len(REJECT3) - len(bad), len(REJECT3)))
+        for name, text in bad:
+            print('ACCEPTED (should be refused): %s\n%s' % (name, text))
+    return len(bad)
+
+
 def reject_tests2(verbose=True):
     import ast
     bad = []
@@ -1469,7 +1946,7 @@ def main(argv):
         seed = int(argv[argv.index('--seed') + 1])
     pids = [a for a in argv[1:] if a.upper().startswith('C') and a[1:].isdigit()] or sorted(srctie_specs.SPECS)
     try:
-        n = reject_tests() + reject_tests2()
+        n = reject_tests() + reject_tests2() + reject_tests3()
         n += run([p.upper() for p in pids], quick, seed, snippets='--no-snippets' not in argv)[0]
     except common.InfraError as e:
         print('infrastructure error: %s' % e)
